@@ -525,16 +525,18 @@ def mode_params_rule(ctx, rule):
     cfgc = CFG(f)
     casts = [st for st in iter_child_stmts(f.body) if isinstance(st, ast.Assign) and 'astype(revmap[type]' in norm(st.value)
              and any(norm(e.test) == 'dtype.name in typemap' for e, fld in cfgc.enclosing_tests(st) if isinstance(e, ast.If))]
+    # (the values that are cast: `data.values`, or a local holding them - scaled for a decimal column)
+    V = norm(casts[0].value.func.value) if casts and isinstance(casts[0].value, ast.Call) and isinstance(casts[0].value.func, ast.Attribute) else 'data.values'
     okc = False
     for st in walk_no_nested(f):
         # accepted forms: a pre-check (finite and integral) or - stronger - comparing the cast result with the values
         if isinstance(st, ast.If) and "dtype.kind == 'f'" in norm(st.test) and any(isinstance(r, ast.Raise) for r in ast.walk(st)):
             body = norm(ast.Module(body=st.body, type_ignores=[]))
-            tail = body.split("astype('float64') != data.values")[1][:40] if "astype('float64') != data.values" in body else ''
+            tail = body.split(("astype('float64') != %s" % V))[1][:40] if ("astype('float64') != %s" % V) in body else ''
             # (a subscript after the comparison narrows it - except to "not the infinities" where a range test that takes
             # int() of the extremes follows: int(inf) raises)
-            narrowed = '[' in tail[:3] and not (tail[1:].startswith('[~np.isinf(data.values)]') and "int(data.values.max())" in norm(f))
-            if ('isfinite' in body and 'trunc' in body) or ("astype('float64') != data.values" in body and not narrowed):
+            narrowed = '[' in tail[:3] and not (tail[1:].startswith(('[~np.isinf(%s)]' % V)) and ("int(%s.max())" % V) in norm(f))
+            if ('isfinite' in body and 'trunc' in body) or (("astype('float64') != %s" % V) in body and not narrowed):
                 okc = True
     ctx.ob(rule, 'writer.convert:lossy-float-to-integer-cast-refused', okc,
            'astype(int) turns NaN into the smallest integer and cuts fractions off; reached when a float frame is appended to an integer column', wr.loc(f))
@@ -552,14 +554,14 @@ def mode_params_rule(ctx, rule):
         tests = [norm(x.test) for x in inner] + [t0]
         defs_n = {norm(a_.targets[0]): norm(a_.value) for a_ in ast.walk(arm) if isinstance(a_, ast.Assign) and len(a_.targets) == 1}
         # (a) the cast result is compared back with the values (only sound for a narrower storage type: guarded by itemsize)
-        form_a = any(('out != data.values' in t or 'data.values != out' in t) and '.any()' in t for t in tests)
+        form_a = any((('out != %s' % V) in t or ('%s != out' % V) in t) and '.any()' in t for t in tests)
         # (b) the values are compared with the range of the column's own integer type
         info = [k for k, v in defs_n.items() if v.startswith('np.iinfo(')]
         form_b = False
         for k in info:
             tgt = defs_n[k][len('np.iinfo('):-1]
             tgt_src = defs_n.get(tgt, tgt)
-            rng = any('%s.min' % k in t and '%s.max' % k in t and 'data.values.min()' in t and 'data.values.max()' in t for t in tests)
+            rng = any('%s.min' % k in t and '%s.max' % k in t and ('%s.min()' % V) in t and ('%s.max()' % V) in t for t in tests)
             form_b = form_b or (rng and tgt_src in ('logical_dtype(se)', 'converted_types.typemap(se)'))
         if form_b or (form_a and 'itemsize' in t0):
             okn = True
